@@ -733,6 +733,37 @@ theorem flatten_nested (a b : Nat) (bs ext : Shape) (nm : Names) (hab : a < b) (
   grind
 
 
+/-! ## stack / unbind (torch spec level) -/
+
+/-- stack_unbind: selecting member `i` of a stack along the stack dim gives back operand `i`
+(so `unbind(stack(ts, d), d) = ts`), for any number of operands of a common shape and any `d ≤ rank` -/
+theorem stack_unbind [Inhabited α] (ts : List (T α)) (s : Shape) (d i : Nat) (hd : d ≤ s.length)
+    (hs : ∀ t ∈ ts, t.shape = s) (hi : i < ts.length) :
+    ((T.stack ts d).select d i) ≈ₜ ts[i] ∧ ((T.stack ts d).unbind d).length = ts.length := by
+  have hne : ts ≠ [] := by intro h; subst h; simp at hi
+  obtain ⟨t0, rest, rfl⟩ := List.exists_cons_of_ne_nil hne
+  have h0 : t0.shape = s := hs t0 (by simp)
+  have hshape : (T.stack (t0 :: rest) d).shape = s.insertIdx d (rest.length + 1) := by
+    simp [T.stack, h0]
+  refine ⟨⟨?_, ?_⟩, ?_⟩
+  · simp only [T.select, hshape]
+    rw [List.eraseIdx_insertIdx_self]
+    exact (hs _ (List.getElem_mem hi)).symm
+  · intro c hc
+    simp only [T.select, T.stack]
+    have hcl : d ≤ c.length := by
+      have := InB.length_eq hc
+      simp only [T.select, hshape, List.eraseIdx_insertIdx_self] at this
+      omega
+    have h1 : (c.insertIdx d i).getD d 0 = i := by
+      simp [List.getD_eq_getElem?_getD, List.getElem?_insertIdx_self, hcl]
+    have h2 : (c.insertIdx d i).eraseIdx d = c := List.eraseIdx_insertIdx_self i
+    rw [h1, h2]
+    simp [List.getElem?_eq_getElem hi]
+  · simp only [T.unbind, List.length_map, List.length_range, hshape]
+    simp [List.getD_eq_getElem?_getD, List.getElem?_insertIdx_self, hd]
+
+
 /-! ## non-vacuity: the hypotheses are satisfiable by concrete, non-trivial values, and the models compute -/
 
 example : [1, 0].Perm (List.range 2) := by decide
